@@ -309,6 +309,18 @@ Definition bad_node (e : expr) : bool :=
   | _ => false
   end.
 Definition tree_ok (e : expr) : bool := negb (any_node bad_node e).
+(* side condition of atoms_complete: no Rational with denominator 1 (Number::is_one then agrees on
+   eq numbers) *)
+Definition num_ok (n : number) : bool :=
+  match n with NRat _ d => negb (d =? 1)%positive | _ => true end.
+Definition bad_num_node (e : expr) : bool :=
+  match e with
+  | ENum n => negb (num_ok n)
+  | EAdd c d => negb (num_ok c) || existsb (fun p => negb (num_ok (snd p))) d
+  | EMul c _ => negb (num_ok c)
+  | _ => false
+  end.
+Definition nums_ok (e : expr) : bool := negb (any_node bad_num_node e).
 
 (* ---------- printing helper for the OCaml glue: class name of a type code ---------- *)
 Fixpoint tc_rfind (c : N) (t : list (list N * N)) : option (list N) :=
